@@ -35,6 +35,13 @@ def variants(p, lm):
         raise Fail("option-not-passed-through", f"labelmsm={lm!r}: static parser result differs from RTCMMessage(payload, labelmsm)")
     if pub(RTCMReader.parse(f, validate=0, labelmsm=lm)) != pa:
         raise Fail("option-not-passed-through", f"labelmsm={lm!r}: static parser with validate=0 differs from RTCMMessage(payload, labelmsm)")
+    if lm == 1:
+        # the RINEX codes are the documented default of every entry point: leaving the option out is the same as 1
+        dflt = [("RTCMMessage(payload)", RTCMMessage(payload=p)), ("RTCMReader.parse(frame)", RTCMReader.parse(f)), ("RTCMReader.parse(frame, validate=0)", RTCMReader.parse(f, validate=0))]
+        dflt += [(f"RTCMReader(stream) frame {k}", c) for k, (_, c) in enumerate(RTCMReader(io.BytesIO(f + f)))]
+        for what, m in dflt:
+            if pub(m) != pa:
+                raise Fail("default-option-not-rinex", f"{what} without a label option differs from labelmsm=1")
     # the static parser called through a reader instance that was built with another option: the argument decides
     for other in (1, 2):
         inst = RTCMReader(io.BytesIO(b""), labelmsm=other, validate=0)
